@@ -168,6 +168,10 @@ def _savorize_src(cname, ops):
             # documented way to fail: get_attribute on a missing key
             L += ['        if node.is_mapping():',
                   '            node.get_attribute(%r)' % op[1]]
+        elif k == 'scalar_upper':
+            # docs/recipes "enum_lowercase": members are upper case in Python
+            L += ['        if node.is_scalar(str):',
+                  '            node.set_value(node.get_value().upper())']
         elif k == 'to_scalar':
             L += ['        node.set_value(%s)' % lit_src(op[1])]
         elif k == 'to_seq':
@@ -210,6 +214,9 @@ def _sweeten_src(cname, ops):
         elif k == 'index_to_map':
             L += ['        if node.is_mapping():',
                   '            node.index_attribute_to_map(%r, %r, %r)' % (op[1], op[2], op[3])]
+        elif k == 'scalar_lower':
+            L += ['        if node.is_scalar(str):',
+                  '            node.set_value(node.get_value().lower())']
         elif k == 'map_to_scalar':
             L += ['        if node.is_mapping() and node.has_attribute_type(%r, str):' % op[1],
                   '            node.set_value(node.get_attribute(%r).get_value())' % op[1]]
